@@ -219,12 +219,27 @@ func C09Scenarios(quick bool) [][]string {
 		sc = append(sc, []string{fmt.Sprintf("eval2:%d:0", t), fmt.Sprintf("eval2:%d:1", t)}, []string{fmt.Sprintf("eval2:%d:2", t), fmt.Sprintf("eval2:%d:2", t)}, []string{fmt.Sprintf("eval2:%d:1", t), fmt.Sprintf("eval:%d:2", t)})
 	}
 	sc = append(sc, []string{"parse:3", "parse:4"}, []string{"parse:3", "bad:3"}, []string{"bad:3", "bad:4"}, []string{"eval:6:0", "parse:4"})
+	// cold start: the shared trees are parsed anew before every execution, so that the very first
+	// evaluations of a tree are the concurrent ones (lazily filled per-node state is cold)
+	sc = append(sc, []string{"!cold", "eval:0", "eval:0"}, []string{"!cold", "eval:3", "fields:3"}, []string{"!cold", "eval:6:0", "eval:6:1"}, []string{"!cold", "eval:4", "eval:1"})
 	// three threads
 	sc = append(sc, []string{"eval:0", "eval:0", "fields:0"}, []string{"eval:3", "fields:3", "parse:0"}, []string{"eval:4", "parse:1", "bad:0"})
 	if !quick {
 		sc = append(sc, []string{"eval:1", "eval:1", "fields:1"}, []string{"eval:2", "fields:2", "bad:1"}, []string{"eval:5", "parse:2", "parse:0"}, []string{"eval:0", "eval:1", "eval:2"})
 	}
 	return sc
+}
+
+// threadsOf strips scenario markers ("!cold") from a scenario.
+func threadsOf(sc []string) (threads []string, cold bool) {
+	for _, n := range sc {
+		if n == "!cold" {
+			cold = true
+			continue
+		}
+		threads = append(threads, n)
+	}
+	return
 }
 
 func judgeSched(c SchedCase) *eng.Fail {
@@ -238,11 +253,17 @@ func judgeSched(c SchedCase) *eng.Fail {
 			return eng.F("harness/setup", "%v", err)
 		}
 	}
-	for _, n := range c.Threads {
+	threads, cold := threadsOf(c.Threads)
+	for _, n := range threads {
 		sequentialObs(n)
 	}
-	bodies := make([]func() string, len(c.Threads))
-	for i, n := range c.Threads {
+	if cold {
+		if err := C09Setup(); err != nil {
+			return eng.F("harness/setup", "%v", err)
+		}
+	}
+	bodies := make([]func() string, len(threads))
+	for i, n := range threads {
 		bodies[i] = C09Body(n)
 	}
 	x := sched.Run(bodies, c.Schedule, 5*time.Second)
@@ -252,7 +273,7 @@ func judgeSched(c SchedCase) *eng.Fail {
 	if x.Diverged != "" {
 		return eng.F("harness/schedule-diverged", "replaying the schedule diverged: %s", x.Diverged)
 	}
-	return schedVerdict(c.Threads, x)
+	return schedVerdict(threads, x)
 }
 
 func schedVerdict(threads []string, x *sched.Exec) *eng.Fail {
@@ -316,16 +337,20 @@ func runC09(w *eng.W) {
 		if v := os.Getenv("VERIF_C09_BOUND"); v != "" {
 			fmt.Sscan(v, &bound)
 		}
+		full := sc
+		sc, cold := threadsOf(full)
 		for _, n := range sc {
 			sequentialObs(n)
 		}
-		sc := sc
 		outcomes := map[string]bool{}
 		failed := false
 		ex := &sched.Explorer{
 			Bound: bound,
 			Stall: 5 * time.Second,
 			Bodies: func() []func() string {
+				if cold {
+					C09Setup()
+				}
 				b := make([]func() string, len(sc))
 				for i, n := range sc {
 					b[i] = C09Body(n)
@@ -345,7 +370,7 @@ func runC09(w *eng.W) {
 				outcomes[key] = true
 				w.Outcome(fmt.Sprint(si) + key)
 			}
-			c := SchedCase{Threads: sc, Schedule: append([]int(nil), schedule...), Bound: bound}
+			c := SchedCase{Threads: full, Schedule: append([]int(nil), schedule...), Bound: bound}
 			if first {
 				first = false
 				w.Sample("schedule", c)
@@ -370,7 +395,7 @@ func runC09(w *eng.W) {
 			fmt.Fprintf(os.Stderr, "scenario %v bound %d: %d schedules, max %d points, %.1fs\n", sc, bound, ex.Schedules, ex.MaxPoints, time.Since(t0).Seconds())
 		}
 		if ex.Diverged != "" {
-			w.FailRaw("schedule", SchedCase{Threads: sc, Bound: bound}, eng.F("harness/schedule-diverged", "scenario %v: %s", sc, ex.Diverged))
+			w.FailRaw("schedule", SchedCase{Threads: full, Bound: bound}, eng.F("harness/schedule-diverged", "scenario %v: %s", full, ex.Diverged))
 		}
 		w.Note("schedules", ex.Schedules)
 		w.Note(fmt.Sprintf("schedules_bound%d_%dthreads", bound, len(sc)), ex.Schedules)
